@@ -13,13 +13,7 @@ use std::time::Duration;
 use tower::ServiceExt;
 use vcore::ctlstore::{Ctl, CtlStore, Mutation};
 
-pub const PRIMARY: &str = "prime_store";
-pub const DB_A: &str = "alpha_db";
-pub const DB_B: &str = "bravo_db";
-/// Never created in any history.
-pub const DB_MISSING: &str = "ghost_db";
-/// Never created either; only used for the reference request of the oracle.
-pub const DB_NOWHERE: &str = "nowhere_db";
+pub use crate::names::{dbn, missing, nowhere_name, primary};
 pub const COLLECTION: &str = "items";
 pub const ADMIN_KEY: &str = "admin-key-7f3a9c";
 pub const SERVER_NAME: &str = "c14-server";
@@ -37,18 +31,21 @@ pub enum Auth {
 
 #[derive(Clone, Debug)]
 pub struct Req {
-    pub get: bool,
+    /// HTTP method: `GET`, `POST`, or any other verb the matrix probes.
+    pub verb: &'static str,
     /// Raw request target, e.g. `/`, `/alpha_db`, `/%61lpha_db`.
     pub path: String,
     pub auth: Auth,
     pub content_type: Option<&'static str>,
+    /// `Accept` header (the response encoding follows it when present).
+    pub accept: Option<&'static str>,
     pub body: bytes::Bytes,
 }
 
 impl Req {
     pub fn to_json(&self) -> Value {
         json!({
-            "http_method": if self.get { "GET" } else { "POST" },
+            "http_method": self.verb,
             "path": self.path,
             "authorization": match &self.auth {
                 Auth::None => Value::Null,
@@ -56,6 +53,7 @@ impl Req {
                 Auth::Raw(b) => json!({"raw_hex": hex::encode(b)}),
             },
             "content_type": self.content_type,
+            "accept": self.accept,
             "body_hex": if self.body.len() <= 512 { hex::encode(&self.body) } else { format!("<{} bytes>", self.body.len()) },
             "body_text": String::from_utf8_lossy(&self.body[..self.body.len().min(300)]),
         })
@@ -127,7 +125,7 @@ pub fn options(admin: Option<&str>) -> ServerOptions {
     ServerOptions {
         name: SERVER_NAME.to_string(),
         version: "0.0.0".to_string(),
-        primary_db: PRIMARY.to_string(),
+        primary_db: primary().to_string(),
         description: "c14 primary".to_string(),
         api_key: admin.map(|s| s.to_string()),
         // no timer-driven flush during a check: every store write is caused
@@ -190,7 +188,7 @@ impl World {
         self.ctl.clear_labels();
         let j0 = self.ctl.journal_len();
         let mut b = http::Request::builder()
-            .method(if req.get { http::Method::GET } else { http::Method::POST })
+            .method(http::Method::from_bytes(req.verb.as_bytes()).expect("http method"))
             .uri(req.path.as_str());
         match &req.auth {
             Auth::None => {}
@@ -206,6 +204,9 @@ impl World {
         }
         if let Some(ct) = req.content_type {
             b = b.header(http::header::CONTENT_TYPE, ct);
+        }
+        if let Some(a) = req.accept {
+            b = b.header(http::header::ACCEPT, a);
         }
         let request = b.body(Body::from(req.body.clone())).expect("request");
         let resp = self.router.clone().oneshot(request).await.expect("router is infallible");
@@ -290,10 +291,11 @@ pub fn rpc(path: &str, auth: Auth, enc: Enc, method: &str, params: Value) -> Req
         json!({"method": method, "params": params})
     };
     Req {
-        get: false,
+        verb: "POST",
         path: path.to_string(),
         auth,
         content_type: Some(enc.content_type()),
+        accept: None,
         body: enc.encode(&body).into(),
     }
 }
@@ -334,8 +336,11 @@ pub fn collection_params(marker: &str) -> Value {
 
 /// A marker string that only database `db` contains (in documents, in the
 /// collection description and in a database extension).
+///
+/// The marker does not contain the database name: a tenant's own data must
+/// not look like (part of) another database's name in any name universe.
 pub fn marker(db: &str) -> String {
-    format!("{}-marker-{}", db.replace('_', ""), vcore::util::fnv_hex(db.as_bytes()))
+    format!("marker-{}", vcore::util::fnv_hex(db.as_bytes()))
 }
 
 impl World {
@@ -347,7 +352,7 @@ impl World {
         self.admin_rpc(&path, "collection.create", collection_params(&m)).await?;
         // the databases differ in content AND in document count, so that an
         // answer computed from the wrong database is visible even in a count
-        let words: &[&str] = if db == DB_A { &["first", "second"] } else { &["first", "second", "third"] };
+        let words: &[&str] = if db == dbn(0) { &["first", "second"] } else { &["first", "second", "third"] };
         for (i, word) in words.iter().enumerate() {
             self.admin_rpc(
                 &path,
